@@ -548,6 +548,7 @@ package rib
 
 //@ unit candidateRIB
 //@ trusted the proto -> gNMI paths -> ygot struct pipeline (protomap.PathsFromProto, ytypes.SetNode, Validate) is reflection over generated schemas and outside the verifier's reach; its key and reference fields are assumed to equal the proto's
+//@ recovers protomap/ytypes panic on some malformed messages (e.g. an enum field holding an undefined number, protomap.parseField); the deferred recover turns that into the error result, so malformed content is answered FAILED instead of taking the server down (C12)
 //@ requires a != nil
 //@ ensures[fresh] result1 == nil ==> result0 != nil && fresh(result0) && result0.Afts != nil && fresh(result0.Afts)
 //@ ensures[fresh-v4] result1 == nil ==> result0.Afts.Ipv4Entry == nil || fresh(result0.Afts.Ipv4Entry)
